@@ -44,6 +44,10 @@ def cases(tier, seed):
         for N, db, rep in itertools.product([1, 2, 5], DBATCH, REPS):
             yield {"kind": "sample", "N": N, "dbatch": db, "rep": rep, "seed": rnd.randrange(10**6)}
             yield {"kind": "arith", "N": N, "dbatch": db, "rep": rep, "seed": rnd.randrange(10**6)}
+        for N, db in itertools.product([2, 5], DBATCH):
+            # rank-deficient covariance held as a tall n x r root (r < n): arithmetic and sampling still describe N(m, R R^T)
+            yield {"kind": "arith", "N": N, "dbatch": db, "rep": "lowrank", "seed": rnd.randrange(10**6)}
+            yield {"kind": "sample", "N": N, "dbatch": db, "rep": "lowrank", "seed": rnd.randrange(10**6)}
     # indexing: enumerate
     for shape in ([4], [2, 4], [2, 3, 4]) if tier == "quick" else ([4], [1], [2, 4], [3, 2], [2, 3, 4], [1, 2, 3]):
         per_dim = [IX.dim_candidates(s, rich=(tier == "thorough" or len(shape) == 1)) for s in shape]
@@ -222,7 +226,7 @@ def _sample(case, ctx, g):
     d = MVN(mean, cov_obj)
     C = C.expand(*db, N, N)
     r = d.base_sample_shape[-1]  # the documented length of base samples (a non-square root has r > N)
-    ctx.expect("base_sample_length", r == N or case["rep"] == "wideroot", f"base_sample_shape {tuple(d.base_sample_shape)} for N={N}")
+    ctx.expect("base_sample_length", r == N or case["rep"] in ("wideroot", "lowrank"), f"base_sample_shape {tuple(d.base_sample_shape)} for N={N}")
     zero = d.rsample(base_samples=torch.zeros(*db, r))
     ctx.close("rsample_zero_is_mean", zero, mean, "direct", cls=case["rep"])
     cols = []
@@ -341,7 +345,7 @@ def _arith(case, ctx, g):
         chk("unsqueeze", lambda: d.unsqueeze(dim), mean.unsqueeze(dim if dim >= 0 else dim - 1), C.unsqueeze(dim if dim >= 0 else dim - 2))
     # variance floor
     with S.min_variance(double_value=0.05):
-        tiny = MVN(mean, C * 1e-6)
+        tiny = MVN(mean, C * 1e-6 + (1e-9 * torch.eye(N) if rep == "lowrank" else 0.0))
         ctx.expect("variance_floor", bool((tiny.variance >= 0.05).all()) and bool((tiny.stddev >= 0.05**0.5 - 1e-12).all()), "variance below the configured minimum")
     ctx.cell(_cellkey(case))
 
